@@ -44,7 +44,7 @@ CHECKS = {
  "C13": dict(technique="reference-model monitor (independent sequence/map/set model, with forbidden results for unspecified calls) over boundary-value argument tuples (empty collections by origin) and random pipelines",
              text="Every listed builtin is called on exhaustive boundary tuples and in random pipelines; value/kind must match the model where it prescribes a value, an error must be returned where the statement prescribes one (duplicate keys in hash-map included).",
              note="model rules in DESIGN.md Appendix A; Unspecified cells accept any non-panicking outcome except results listed as wrong under every reading", ref="5/C13"),
- "C14": dict(technique="independent structural comparison + reflexivity/symmetry/transitivity monitors over an exhaustive small universe and mutated deep pairs",
+ "C14": dict(technique="independent structural comparison + reflexivity/symmetry/transitivity monitors over an exhaustive small universe and mutated deep pairs, with failing comparisons of functions interleaved (history independence)",
              text="(= a b) through EVAL is compared with the harness's own structural equality for all pairs of an exhaustive universe of small values, triples for transitivity, and random deep pairs built by mutation and by different construction paths (metadata-carrying ones included).",
              note="canon.LispEqual is the oracle", ref="5/C14"),
  "C15": dict(technique="substitution-model monitor: generator-side AST substitution vs READWithPreamble(AddPreamble(src,m)) vs Read_str(src,m)",
@@ -53,10 +53,10 @@ CHECKS = {
  "C16": dict(technique="bracket-stack model monitor using the REPL's own classifier through a verif-tagged export + history-independence relation over grown texts (prefixes read in growing order vs read after an unrelated text)",
              text="Every cut point of generated well-formed expressions is classified by a harness stack machine; READ must report the distinguished EOF error naming the innermost closer exactly when the prefix is completable by closers; surplus/mismatched closers and multiple expressions must be rejected with a non-multiline error; six goroutines reading pooled texts concurrently must each get what the text gives alone; the real REPL loop (repl.Execute) is driven with typed multi-line entries with comments on inner lines and must print exactly one correct result per entry.",
              note="uses repl.VerifMultiLine (hook) so that the REPL's own classification is observed", ref="5/C16"),
- "C17": dict(technique="position monitor against generator-known line numbers of planted faults",
+ "C17": dict(technique="position monitor against generator-known line numbers of planted faults (module names from cursors and from the $MODULE header line)",
              text="Programs with exactly one planted fault are generated with known line spans; any positioned error must name the module of that reading (module names vary, the same text is read under another name first), lie within the top-level form and cover the fault's first line; faults evaluated at macro-expansion time included.",
              note="columns not checked; higher-order builtin re-positioning accepted in both readings", ref="5/C17"),
- "C18": dict(technique="on/off relational monitor with scripted Stepper callbacks",
+ "C18": dict(technique="on/off relational monitor with scripted Stepper callbacks (live and already-ended contexts)",
              text="Programs of the C01/C03/C12 generators are run with and without a scripted stepper (constant, alternating and seeded command sequences); result, error class and trace must agree, and the callback must always receive a scope in which the handed symbol resolves; long-running programs (4000-12000 tail calls, deep recursion, try nests) are included.",
              note="single-threaded; stdout of Next is discarded", ref="5/C18"),
  "C19": dict(technique="multi-route relational monitor (text with/without module, position-less AST, re-read print, REPL form by form, do-wrapped, load-file) over layout variants",
